@@ -701,6 +701,17 @@ def push_cases(rng, n):
                 body.append({"k": "access", "g": "ub", "how": "load"})
             e = {"name": "e%d" % k, "stage": st, "params": [], "body": body, "wg": ["1"] if st == "compute" else []}
             S["entries"].append(e)
+        if i % 3 == 1:
+            # variables without a binding declared in front of the push constant and used by OTHER stages than it
+            # (tables indexed by declaration position)
+            front = [{"name": "pv_state", "space": "private", "ty": {"k": "scalar", "s": "f32"}}]
+            if i % 2:
+                front.append({"name": "pv_more", "space": "private", "ty": VEC4})
+            S["globals"] = front + S["globals"]
+            used = {e["stage"] for e in S["entries"] if e["body"]}
+            other = [st for st in ("compute", "fragment", "vertex") if st not in used] or ["compute"]
+            S["entries"].append({"name": "e_front", "stage": other[0], "params": [], "wg": ["1"] if other[0] == "compute" else [],
+                                 "body": [{"k": "access", "g": g["name"], "how": "load"} for g in front]})
         cases.append({"id": "push-%05d" % i, "family": "push", "S": S, "opts": opts(validate=rng.choice(["none", "all"]))})
         i += 1
     pats = [["none"], ["direct"], ["helper"], ["nested"], ["nested", "none"], ["none", "nested"], ["direct", "nested", "none"], ["helper", "direct"]]
@@ -877,7 +888,7 @@ def role_shader(rng, big_arrays=True, entry_names=False, rename=None, multi=None
     if rng.random() < 0.2:
         rng.shuffle(S["structs"])     # WGSL allows use before declaration
     if rng.random() < 0.3:
-        S["decor"] = [d for d in ("diagnostic", "const_assert", "invariant", "interpolate") if rng.random() < 0.6]
+        S["decor"] = [d for d in ("diagnostic", "const_assert", "invariant", "interpolate", "interpolate_vin") if rng.random() < 0.6]
     return S, has_rt
 
 
@@ -1051,7 +1062,8 @@ def role_shader0(rng, big_arrays=True, entry_names=False):
 
 
 STRUCT_NAME_STYLES = [lambda n: n + "2D", lambda n: "HTTP" + n, lambda n: n[:2] + "__" + n[2:], lambda n: n[0], lambda n: n, lambda n: n, lambda n: n.lower(), lambda n: "".join("_" + c.lower() if c.isupper() and i else c.lower() for i, c in enumerate(n)),
-                      lambda n: n[:3] + "_" + n[3:], lambda n: n[0].lower() + n[1:], lambda n: n + "_PBR", lambda n: n.upper()]
+                      lambda n: n[:3] + "_" + n[3:], lambda n: n[0].lower() + n[1:], lambda n: n + "_PBR", lambda n: n.upper(),
+                      lambda n: "_" + n, lambda n: "_" + n.lower() + "_"]
 
 
 def rename_structs(S, rng):
@@ -1240,6 +1252,23 @@ def long_tail_sources():
     return out
 
 
+def directive_sources():
+    """global directives in front of an otherwise valid source: language extensions the front end knows but has not implemented, unknown
+    ones, enable-extensions, diagnostic filters; in first position, after a comment, twice, and followed by a second parse error"""
+    body = "@group(0) @binding(0) var<uniform> w: vec4<f32>;\n@fragment fn fs_main() -> @location(0) vec4<f32> { return w; }\n"
+    dirs = ["requires pointer_composite_access;", "requires readonly_and_readwrite_storage_textures;", "requires unrestricted_pointer_parameters;",
+            "requires packed_4x8_integer_dot_product;", "requires nonsense;", "requires pointer_composite_access, unrestricted_pointer_parameters;",
+            "enable f16;", "enable dual_source_blending;", "enable clip_distances;", "enable nonsense;", "diagnostic(off, derivative_uniformity);",
+            "diagnostic(error, nonsense);"]
+    out = []
+    for i, d in enumerate(dirs):
+        out.append(("directive-%d" % i, d + "\n" + body))
+        out.append(("directive-%d-c" % i, "// shared with the web build\n  " + d + "\n" + d + "\n" + body))
+        out.append(("directive-%d-e" % i, d + "\n" + body + "fn broken( {\n"))
+        out.append(("directive-%d-l" % i, body + d + "\n"))
+    return out
+
+
 def c17_cases(rng, seeds, n_per_seed, validate_sets=("none", "all")):
     """seeds: list of (name, valid WGSL text)"""
     cases = []
@@ -1266,7 +1295,7 @@ def c17_cases(rng, seeds, n_per_seed, validate_sets=("none", "all")):
         for val in ("none", "all", "empty", "all-" + cap, "only-" + cap):
             cases.append({"id": "c17-%06d" % k, "family": "capability-" + name, "wgsl": src, "opts": opts(validate=val)})
             k += 1
-    for name, src in NO_ENTRY_INVALID + long_tail_sources():
+    for name, src in NO_ENTRY_INVALID + long_tail_sources() + directive_sources():
         for val in ("none", "all"):
             cases.append({"id": "c17-%06d" % k, "family": "semantic-" + name, "wgsl": src, "opts": opts(validate=val)})
             k += 1
